@@ -5,7 +5,9 @@ Model: lean/SleapVerif/Model/Peaks.lean (`globalRough` = the REPAIRED detector o
 fixes/C07-flat-argmax.patch, `globalRoughAsIs` = the pinned tree's, `globalRefineFlat`);
 theorems: lean/SleapVerif/Props/C07.lean.
 Correspondence: `find_global_peaks_rough`, `find_global_peaks(refinement in {None,"integral"})`
-(real code, real kornia crop) vs the Lean driver at Rat on the exact values of the float32 maps.
+(real code, real kornia crop) vs the Lean driver at Rat on the exact values of the maps, which come in
+float64 / float32 / float16 / bfloat16 (dtype-agnostic model: comparisons exact in the map's own dtype,
+coordinates float32 integers; half-precision maps also with sides beyond the dtype's exact-integer range).
 
 The implementation is compared with the *repaired* model.  Where it differs the property oracle
 decides: if the reported cell does not hold the maximum that is finding F-C07 (signature
@@ -25,7 +27,8 @@ from fractions import Fraction
 
 from common import CORPUS, Check, call, import_repo, lst, rat, run_check, run_driver
 
-from c06 import is_p1_raise, patch_of, patch_signatures, patch_size
+from c06 import (BOUND_SLACK, DYADIC_THRS, HALF, REFINE_TOL, TORCH_DTYPE, DTYPE_MIX, eff_abs_sum, float64_special,
+                 half_refine_probe, is_p1_raise, patch_of, patch_signatures, patch_size, thr_in_dtype, window_min)
 
 THEOREMS = [
     "SleapVerif.C07.global_attains_max",
@@ -98,8 +101,41 @@ def gen_case(rng):
     den = rng.choice([8, 8, 16])
     kinds = [rng.choice(KINDS) for _ in range(S * C)]
     maps = [gen_lattice_map(rng, h, w, k, den) for k in kinds]
-    return {"S": S, "C": C, "h": h, "w": w, "den": den, "maps": maps, "thr": rng.choice(THRS)[0],
-            "p": rng.choice([0, 1, 2, 3, 3, 4, 5, 5, 6, 7, 8]), "kind": "+".join(sorted(set(kinds))), "shape": shape}
+    dtype = rng.choice(DTYPE_MIX)
+    p = rng.choice([0, 1, 2, 3, 3, 4, 5, 5, 6, 7, 8])
+    if dtype in HALF:
+        p = 0  # integral refinement of half-precision maps is out of domain on the unchanged tree (half_refine_probe)
+    kind = "+".join(sorted(set(kinds)))
+    if dtype == "f64" and rng.random() < 0.4:
+        maps, den = [float64_special(rng, h, w, [[v / den for v in row] for row in m]) for m in maps], 1
+        kind = "f64special"
+    thr = rng.choice(THRS)[0] if dtype == "f32" else rng.choice(C07_DYADIC)
+    return {"S": S, "C": C, "h": h, "w": w, "den": den, "maps": maps, "thr": thr, "p": p, "dtype": dtype,
+            "kind": kind, "shape": shape}
+
+
+C07_DYADIC = [t for t, q in THRS if q.denominator in (1, 2, 4, 8)]
+
+
+def big_half_case(rng):
+    """half-precision maps with a side beyond the dtype's exact-integer range (bfloat16: 256, float16: 2048), the maximum
+    at an index that is not representable in that dtype"""
+    dtype = rng.choice(["bf16", "bf16", "f16"])
+    n = rng.randrange(262, 300) if dtype == "bf16" else rng.randrange(2052, 2100)
+    lo = 257 if dtype == "bf16" else 2049
+    along_x = rng.random() < 0.5
+    short = rng.randrange(1, 4)
+    h, w = (short, n) if along_x else (n, short)
+    C = rng.randrange(1, 3)
+    maps = []
+    for _ in range(C):
+        m = [[rng.randrange(0, 4) for _ in range(w)] for _ in range(h)]
+        k = min(rng.randrange(lo, n) | 1, n - 1)
+        i, j = (rng.randrange(h), k) if along_x else (k, rng.randrange(w))
+        m[i][j] = 8
+        maps.append(m)
+    return {"S": 1, "C": C, "h": h, "w": w, "den": 8, "maps": maps, "thr": 0.5, "p": 0, "dtype": dtype,
+            "kind": "big_half", "shape": "big_half"}
 
 
 def gen_gauss_case(rng):
@@ -120,8 +156,9 @@ def gen_gauss_case(rng):
              for i in range(h)]
         maps.append(m)
         truth.append({"cx": cx, "cy": cy, "dx": dx, "dy": dy, "sigma": sigma, "amp": amp})
-    return {"S": S, "C": C, "h": h, "w": w, "den": 1, "maps": maps, "thr": rng.choice([0.2, 0.1, 0.5]),
-            "p": p, "kind": "gauss", "shape": "gauss", "truth": truth}
+    dtype = rng.choice(["f32", "f32", "f64"])
+    return {"S": S, "C": C, "h": h, "w": w, "den": 1, "maps": maps, "thr": rng.choice([0.2, 0.1, 0.5]) if dtype == "f32" else 0.5,
+            "p": p, "dtype": dtype, "kind": "gauss", "shape": "gauss", "truth": truth}
 
 
 # ------------------------------------------------------------------ implementation side
@@ -134,14 +171,20 @@ class Impl:
         self.np, self.torch, self.pf = np, torch, pf
 
     def tensor(self, case):
-        t = self.torch.tensor(case["maps"], dtype=self.torch.float32) / case["den"]
-        return t.reshape(case["S"], case["C"], case["h"], case["w"])
+        """built in float64 (all generated values are exact there) and cast to the case's dtype; lattice values k/8, k/16
+        are exactly representable in float16 and bfloat16 too"""
+        t = self.torch.tensor(case["maps"], dtype=self.torch.float64) / case["den"]
+        t = t.reshape(case["S"], case["C"], case["h"], case["w"])
+        return t.to(getattr(self.torch, TORCH_DTYPE[case.get("dtype", "f32")]))
 
-    @staticmethod
-    def canon(res, S, C):
+    def exact(self, cms):
+        return cms.to(self.torch.float64).numpy()
+
+    def canon(self, res, S, C):
         pts, vals = res
-        assert tuple(pts.shape) == (S, C, 2) and tuple(vals.shape) == (S, C), (pts.shape, vals.shape)
-        assert str(pts.dtype) == "torch.float32"
+        self.last_dtypes = tuple(str(t.dtype).replace("torch.", "") for t in (pts, vals))
+        if not (tuple(pts.shape) == (S, C, 2) and tuple(vals.shape) == (S, C)):
+            return ("badshape", tuple(pts.shape), tuple(vals.shape))
         out = []
         for s in range(S):
             for c in range(C):
@@ -191,10 +234,11 @@ def same_rough(i, m):
 
 
 # ------------------------------------------------------------------ oracle (independent of the model)
-def oracle_rough(np, a2, thr, got):
-    """a2: (h,w) float32 map; got: (x,y,val) of the implementation; returns (why, signatures)"""
+def oracle_rough(np, a2, thr, got, dtype="f32"):
+    """a2: (h,w) map as exact float64 values (comparisons on it are comparisons in the input dtype);
+    got: (x,y,val) of the implementation; returns (why, signatures)"""
     mx = a2.max()
-    valid = not (mx < np.float32(thr))
+    valid = not (mx < thr_in_dtype(np, thr, dtype))
     x, y, v = got
     if not valid:
         if x is not None or y is not None or v != 0.0:
@@ -212,22 +256,22 @@ def oracle_rough(np, a2, thr, got):
     if a2[int(y), int(x)] != mx:
         return (f"reported cell (x={int(x)},y={int(y)}) holds {float(a2[int(y), int(x)])}, the maximum {float(mx)} "
                 f"is at {list(zip(xs.tolist(), ys.tolist()))[:4]}"), sigs
-    if np.float32(v) != mx:
+    if np.float64(v) != mx:
         return f"reported value {v} is not the maximum {float(mx)}", sigs
     return None, sigs
 
 
-def oracle_refined(np, a2, rough, refined, p):
+def oracle_refined(np, a2, rough, refined, p, dtype="f32"):
     """valid channels move at most half a patch; invalid channels stay NaN; returns (why, signatures)"""
     if rough[0] is None:
         if refined[0] is not None or refined[1] is not None:
             return f"invalid channel became {refined}", []
         return None, []
     half = p / 2
-    if refined[0] is None or refined[1] is None or not (abs(refined[0] - rough[0]) <= half + 1e-4
-                                                         and abs(refined[1] - rough[1]) <= half + 1e-4):
+    if refined[0] is None or refined[1] is None or not (abs(refined[0] - rough[0]) <= half + BOUND_SLACK[dtype]
+                                                         and abs(refined[1] - rough[1]) <= half + BOUND_SLACK[dtype]):
         P = patch_of(np, a2[None, None], 0, 0, int(rough[0]), int(rough[1]), p)
-        sigs = patch_signatures(P)
+        sigs = patch_signatures(P, window_min(a2, int(rough[0]), int(rough[1]), p))
         hh, ww = a2.shape
         inb = 0 <= int(rough[1]) < hh and 0 <= int(rough[0]) < ww
         if inb and a2[int(rough[1]), int(rough[0])] != a2.max():
@@ -240,17 +284,27 @@ def oracle_refined(np, a2, rough, refined, p):
 def run_case(chk, I, case, mline, f07_known):
     np = I.np
     cms = I.tensor(case)
-    a = cms.numpy()
+    a = I.exact(cms)
+    dtype = case.get("dtype", "f32")
     S, C, h, w, thr, p = case["S"], case["C"], case["h"], case["w"], case["thr"], patch_size(case)
     model = parse_model(mline, S * C)
-    small = {**{k: case[k] for k in ("S", "C", "h", "w", "den", "maps", "thr")}, "p": p}
+    small = {**{k: case[k] for k in ("S", "C", "h", "w", "den", "maps", "thr")}, "p": p, "dtype": dtype}
 
     rough = I.rough(cms, thr)
+    if rough and rough[0] == "badshape":
+        chk.disagree("find_global_peaks_rough output shapes", {k: small[k] for k in ("S", "C", "h", "w")}, str(rough), "(S,C,2),(S,C)")
+        return
+    if not (rough and rough[0] == "raise"):
+        # modelling assumption: comparisons are exact in the map's own dtype; coordinates are float32 integers
+        want_dt = ("float32", TORCH_DTYPE[dtype])
+        if I.last_dtypes != want_dt:
+            chk.disagree("find_global_peaks_rough output dtypes (points float32, values in the map's dtype)",
+                         {k: small[k] for k in ("S", "C", "h", "w", "thr", "p", "dtype")}, list(I.last_dtypes), list(want_dt))
     nvalid = sum(1 for m in model if m["fix"][0] is not None)
-    chk.case((S, C, h, w, thr, p, a.tobytes()) if nvalid and h * w > 1 else None,
-             {"shape": [S, C, h, w], "thr": thr, "p": p, "kind": case.get("kind"), "valid": nvalid}
-             if nvalid and case.get("kind") != "gauss" else None,
-             tags=[f"shape:{case.get('shape')}", f"p:{p}", f"valid:{nvalid}/{S * C}" if S * C <= 2 else
+    chk.case((S, C, h, w, thr, p, dtype, a.tobytes()) if nvalid and h * w > 1 else None,
+             {"shape": [S, C, h, w], "thr": thr, "p": p, "dtype": dtype, "kind": case.get("kind"), "valid": nvalid}
+             if nvalid and case.get("kind") not in ("gauss", "big_half") else None,
+             tags=[f"shape:{case.get('shape')}", f"p:{p}", f"dtype:{dtype}"] + ([f"kind:{case['kind']}"] if case.get("kind") in ("f64special", "big_half") else []) + [ f"valid:{nvalid}/{S * C}" if S * C <= 2 else
                    ("valid:all" if nvalid == S * C else "valid:none" if nvalid == 0 else "valid:mixed")])
     if rough and rough[0] == "raise":
         chk.disagree("find_global_peaks_rough raises where the model does not", small, str(rough), "ok")
@@ -259,7 +313,7 @@ def run_case(chk, I, case, mline, f07_known):
     which = []  # per channel: which model the implementation's rough output follows
     for k, (g, m) in enumerate(zip(rough, model)):
         s, c = divmod(k, C)
-        why, sigs = oracle_rough(np, a[s, c], thr, g)
+        why, sigs = oracle_rough(np, a[s, c], thr, g, dtype)
         ok_fix = same_rough(g, m["fix"])
         if ok_fix:
             which.append("pfix")
@@ -274,8 +328,8 @@ def run_case(chk, I, case, mline, f07_known):
                 chk.disagree("find_global_peaks_rough == Peaks.globalRoughAsIs (inside F-C07)", {**small, "channel": [s, c]},
                              list(g), [float(x) if x is not None else None for x in m["asis"]])
         if why:
-            one = {"S": 1, "C": 1, "h": h, "w": w, "den": case["den"], "maps": [case["maps"][k]], "thr": thr, "p": p}
-            chk.fail(f"C07 fails on find_global_peaks_rough: {why}", one, list(g), sigs)
+            one = {"S": 1, "C": 1, "h": h, "w": w, "den": case["den"], "maps": [case["maps"][k]], "thr": thr, "p": p, "dtype": dtype}
+            chk.fail(f"C07 fails on find_global_peaks_rough ({TORCH_DTYPE[dtype]} maps): {why}", one, list(g), sigs)
 
     none_ref = I.full(cms, thr, None, 5)
     if none_ref != rough and not (str(none_ref) == str(rough)):
@@ -312,7 +366,7 @@ def run_case(chk, I, case, mline, f07_known):
                     chk.disagree("find_global_peaks(integral): invalid channel stays NaN", {**small, "channel": [s, c]}, list(f), None)
             else:
                 P = patch_of(np, a, s, c, int(g[0]), int(g[1]), p)
-                z, az = float(P.sum()), float(np.abs(P).sum())
+                z, az = float(P.sum()), eff_abs_sum(np, P, a[s, c], p)
                 if mp == "inf" or abs(z) < 1e-3 * az:
                     chk.knife_edges += 1
                     chk.tag("knife:patch_sum~0")
@@ -320,18 +374,18 @@ def run_case(chk, I, case, mline, f07_known):
                     chk.disagree("find_global_peaks(integral) point == Peaks.globalRefineFlat", {**small, "channel": [s, c]},
                                  list(f), [float(mp[0]), float(mp[1])])
                 else:
-                    tol = 5e-5 * max(1.0, (p + 1) / 2 * az / abs(z))
+                    tol = REFINE_TOL[dtype] * max(1.0, (p + 1) / 2 * az / abs(z))
                     ex, ey = abs(f[0] - float(mp[0])), abs(f[1] - float(mp[1]))
                     chk.extra["max_refine_err_over_tol"] = max(chk.extra.get("max_refine_err_over_tol", 0.0), max(ex, ey) / tol)
                     chk.extra["max_refine_abs_err_over_kappa"] = max(chk.extra.get("max_refine_abs_err_over_kappa", 0.0), max(ex, ey) * abs(z) / az)
                     if not (ex <= tol and ey <= tol):
                         chk.disagree("find_global_peaks(integral) point == Peaks.globalRefineFlat (tol)",
                                      {**small, "channel": [s, c]}, list(f[:2]), [float(mp[0]), float(mp[1])])
-        why, sigs = oracle_refined(np, a[s, c], g, f, p)
+        why, sigs = oracle_refined(np, a[s, c], g, f, p, dtype)
         if bool((a[s, c] < 0).any()):
             chk.extra["excluded_region_cases"] = chk.extra.get("excluded_region_cases", 0) + 1
         if why:
-            one = {"S": 1, "C": 1, "h": h, "w": w, "den": case["den"], "maps": [case["maps"][k]], "thr": thr, "p": p}
+            one = {"S": 1, "C": 1, "h": h, "w": w, "den": case["den"], "maps": [case["maps"][k]], "thr": thr, "p": p, "dtype": dtype}
             chk.fail(f"C07 fails on find_global_peaks(integral, p={p}): {why}", one, list(f), sigs)
 
     # ---- Gaussian bumps: symmetric-unmoved / toward-centre (property, inside patches) + error reduction (test)
@@ -392,7 +446,7 @@ def main(chk: Check):
         cms = I.tensor(case)
         if ent["id"] == "F-C07":
             got = I.rough(cms, case["thr"])
-            why, sigs = oracle_rough(np, cms.numpy()[0, 0], case["thr"], got[0])
+            why, sigs = oracle_rough(np, I.exact(cms)[0, 0], case["thr"], got[0])
             m = parse_model(run_driver("C07.lean", [model_line(case, cms)])[0], 1)[0]
             if not (same_rough(got[0], m["fix"]) or same_rough(got[0], m["asis"])):
                 chk.disagree("F-C07 witness: implementation is neither the as-is nor the repaired model", ent["witness"], str(got), str(m))
@@ -406,7 +460,7 @@ def main(chk: Check):
                 f = full
             else:
                 f = full[0]
-                why, sigs = oracle_refined(np, cms.numpy()[0, 0], g, f, case["p"])
+                why, sigs = oracle_refined(np, I.exact(cms)[0, 0], g, f, case["p"])
             chk.known_replay(ent["id"], still_fails=bool(why) and ent["signature"] in sigs, detail=f"rough={g} refined={f}")
 
     # ---- corpus, fixed cases, generated cases
@@ -423,11 +477,14 @@ def main(chk: Check):
                   "maps": [[[0, 0, 0], [0, 8, 0], [0, 0, 0]]]})                           # max == thr is kept
     cases.append({"S": 2, "C": 1, "h": 2, "w": 3, "den": 8, "thr": 0.2, "p": 5, "kind": "fixed", "shape": "fixed",
                   "maps": [[[8, 8, 8], [8, 8, 8]], [[1, 1, 1], [1, 1, 1]]]})              # plateau; first cell
+    for _ in range(chk.n(3, 16)):
+        cases.append(big_half_case(rng))
     for _ in range(chk.n(1000, 8000)):
         cases.append(gen_case(rng))
     for _ in range(chk.n(300, 3000)):
         cases.append(gen_gauss_case(rng))
 
+    half_refine_probe(chk, torch, I.pf.find_global_peaks, "find_global_peaks")
     lines = [model_line(c, I.tensor(c)) for c in cases]
     out = run_driver("C07.lean", lines)
     for c, m in zip(cases, out):
@@ -468,6 +525,12 @@ if __name__ == "__main__":
         assumptions=[
             "finite maps with h, w >= 1; integral_patch_size 1..8: odd p reads cells, even p reads means of four cells (half-integer "
             "sampling), both modelled; p = 1 raises inside kornia (F-C06p1) where the model gives offset 0",
+            "dtypes: maps in float64 / float32 / float16 / bfloat16 (half-precision maps also with sides of 262..300 resp. 2052..2100 "
+            "cells, beyond the dtype's exact-integer range); the model is dtype-agnostic (runs on the exact values): comparisons are "
+            "exact in the map's own dtype, coordinates are float32 integers, values keep the map's dtype; thresholds dyadic except "
+            "0.1 / 0.2 with float32 maps",
+            "OUT OF DOMAIN (recorded in evidence.out_of_domain, not judged): integral refinement of float16/bfloat16 maps — on the "
+            "unchanged tree kornia's crop_and_resize raises _LinAlgError for many shapes and returns NaN for large maps",
             "refinement bound proved for non-negative maps / positive threshold only (F-C06 applies here too); negative patches sampled "
             "every run with the oracle (excluded_region_cases) — search, not proof",
             "toward-centre / symmetric-unmoved are theorems for patches inside the map; border patches (zero padding breaks the symmetry) "
